@@ -215,7 +215,7 @@ func TestVerif_C11(t *testing.T) {
 		}
 		rng := c.RNG(idx)
 		cam := randomCamera(rng, true)
-		cam.Serial = uint64(rng.PickInt(0, 1, 12345, math.MaxInt32, math.MaxUint32))
+		cam.Serial = pickSerial(rng, 0, 1, 12345, math.MaxInt32, math.MaxUint32)
 		if rng.Chance(15) {
 			cam.Firmware = longString(rng, rng.PickInt(100, 255), false)
 		}
